@@ -8,13 +8,14 @@ Open Scope N_scope.
 Definition dkind_eqb (a b : dkind) : bool :=
   match a, b with
   | KParserError, KParserError | KConverterError, KConverterError | KXmlContextError, KXmlContextError
+  | KXmlHandlerError, KXmlHandlerError
   | KTypeError, KTypeError | KAttributeError, KAttributeError | KKeyError, KKeyError | KIndexError, KIndexError
   | KValueError, KValueError | KAssertionError, KAssertionError | KModelGap, KModelGap => true
   | _, _ => false
   end.
 
 Definition ddocumented (k : dkind) : bool :=
-  match k with KParserError | KConverterError | KXmlContextError => true | _ => false end.
+  match k with KParserError | KConverterError | KXmlContextError | KXmlHandlerError => true | _ => false end.
 
 (* what the harness observed: None = an object was returned, Some k = exception class *)
 Definition dict_case := (dconfig * conv_table * universe * generics * option cls * jvalue * option dkind)%type.
